@@ -292,6 +292,30 @@ impl Property for C13 {
                 }
             }
         }
+        // the identity held as (0, -1): a witnessed (decoded, canonical) copy minus a constant copy of a
+        // non-canonical representative; every boolean / equality gadget on it
+        for src in [Torsion(g()), MinusOneTimes(g()), Torsion(Box::new(MulGen(6u64.into()))), MulLimbs(crate::refmodel::R.m.to_u64_digits(), g()), Neg(Box::new(Torsion(Box::new(Elligator(3u64.into())))))] {
+            for mode in [Mode::Witness, Mode::Input] {
+                let pre = vec![
+                    GOp::AllocElem { dst: 0, src: src.clone(), mode, via: Via::Element },
+                    GOp::Realloc { dst: 1, a: 0, mode: Mode::Constant, via: Via::Element },
+                    GOp::Bin { dst: 2, form: rl::BinForm::SubVV, a: 0, b: 1 },
+                    GOp::AllocElem { dst: 3, src: Identity, mode: Mode::Witness, via: Via::Element },
+                ];
+                for tail in [
+                    vec![GOp::IsZero { a: 2 }],
+                    vec![GOp::IsEq { a: 2, b: 3 }, GOp::IsNeq { a: 2, b: 3 }],
+                    vec![GOp::EnforceEqual { a: 2, b: 3 }],
+                    vec![GOp::CondEnforceEqual { a: 3, b: 2, cond: true }],
+                    vec![GOp::Compress { dst: 0, e: 2 }, GOp::ReadValue { a: 2 }],
+                    vec![GOp::IsZero { a: 0 }, GOp::IsZero { a: 3 }, GOp::IsEq { a: 0, b: 1 }, GOp::EnforceEqual { a: 0, b: 1 }],
+                ] {
+                    let mut prog = pre.clone();
+                    prog.extend(tail);
+                    v.push(Case::Program { prog });
+                }
+            }
+        }
         // decode of every interesting field value; Elligator of 0, +-1; isqrt of 0
         for s in [N::from(0u32), N::from(2u32), N::from(8u32), N::from(1u32), &Q.m - 1u32, N::from(3u32), N::from(4u32)] {
             for mode in [Mode::Witness, Mode::Input] {
